@@ -19,7 +19,7 @@ RULE = ('Labelled removal-enabled DynGraphs (3-5 nodes, <= 6 snapshot ids, int o
         'reaches >= 2 others at different hop distances.')
 ASSUMPTIONS = ['e > t', "node ids are ints or '_'-free strings", 'static categorical labels, no hierarchies, sample=1']
 TECHNIQUE = 'metamorphic PBT (relabelling, node renaming, uniform labels, sliding vs direct) with brute-force reachability'
-BUDGET = {'quick': {'cases': 5000, 'seconds': 50}, 'thorough': {'cases': 40000, 'seconds': 560}}
+BUDGET = {'quick': {'cases': 5000, 'seconds': 50}, 'thorough': {'cases': 150000, 'seconds': 560}}
 PATH_TYPES = ['shortest', 'fastest', 'foremost', 'fastest_shortest', 'shortest_fastest']
 EPS = 1e-9
 
